@@ -7,7 +7,9 @@ RULE = ('Hypothesis: st.recursive nestings of None/str/int/float/bool/list/dict/
         'strings over an alphabet holding every line boundary Python knows, blanks, tabs and the '
         'empty string; oracle: an independent reference flattener (explicit scanner over the boundary '
         'list, no splitlines) plus the algebraic laws of the statement (str form, round trip, '
-        'append/+/+= are concatenation, trim, chunk, cond_chunk). Non-trivial: nesting depth >= 2 '
+        'append/+/+= are concatenation, trim, chunk, cond_chunk); histories of 2-7 operations on one '
+        'block (append / += of any content incl. a block given directly, +, nesting, lines setter, '
+        'trim, observation of str()/lines in between) against a (header, lines) model. Non-trivial: nesting depth >= 2 '
         'and (a boundary other than \\n or an empty string leaf); distinct by case hash.')
 ASSUMPTIONS = ['nested text blocks are header-less (a header is only given to the outermost block)',
                'appendix / preamble / empty_response of chunk()/cond_chunk() are None or non-empty '
@@ -275,6 +277,71 @@ def check_chunk(case):
                f'cond_chunk lines {got and got.lines!r} != {want!r}', 'cond')
 
 
+# ---- histories: one block, a generated sequence of operations, observed in between
+
+hist_op = st.one_of(
+    st.tuples(st.sampled_from(['append', 'iadd', 'add', 'nest']), content),
+    st.tuples(st.sampled_from(['append', 'iadd']), content.map(lambda x: {'$tb': x})),
+    st.tuples(st.just('setlines'), st.lists(st.sampled_from(['', 'a', ' b', 'c ']), max_size=3)),
+    st.tuples(st.sampled_from(['trim', 'trim_end', 'str', 'str', 'lines']), st.none()))
+history = st.fixed_dictionaries({
+    'init': content, 'header': st.one_of(st.none(), st.lists(simple_text.map(
+        lambda t: t.replace('\n', '')).filter(lambda t: t != ''), min_size=1, max_size=2)),
+    'ops': st.lists(hist_op, min_size=2, max_size=7)})
+
+
+def check_history(case):
+    """Reference model: (header lines, content lines).  Every operation is applied to the block and
+    to the model; the string form and the lines are observed where the history says so and at the
+    end (so that forms computed earlier can never be served again after a change)."""
+    from dznpy.text_gen import TextBlock
+    hdr = list(case['header'] or [])
+    tb = TextBlock(real(case['init']), header=list(hdr) if hdr else None)
+    model = ref_lines(case['init'])
+
+    def observe(step):
+        want = ''.join(l + '\n' for l in hdr + model)
+        got = str(tb)
+        expect(got == want, f'step {step}: str {got!r} != {want!r}', 'hist-str')
+
+    for i, (op, arg) in enumerate(case['ops']):
+        arg = list(arg) if isinstance(arg, tuple) else arg
+        if op == 'append':
+            r = tb.append(real(arg))
+            expect(r is tb, 'append does not return the block', 'hist-append')
+            model = model + ref_lines(arg)
+        elif op == 'iadd':
+            tb += real(arg)
+            model = model + ref_lines(arg)
+        elif op == 'add':
+            old = tb
+            new = tb + real(arg)
+            expect(old.lines == model, f'step {i}: left operand of + changed', 'hist-add-mutates')
+            expect(new.lines == model + ref_lines(arg), f'step {i}: + gives {new.lines!r}',
+                   'hist-add')
+            observe(i)  # the old block still renders its own text
+        elif op == 'nest':
+            if hdr:  # what a nested block does with its header is not part of the statement
+                continue
+            outer = TextBlock([tb, real(arg), tb])
+            want = model + ref_lines(arg) + model
+            expect(outer.lines == want, f'step {i}: nesting gives {outer.lines!r} != {want!r}',
+                   'hist-nest')
+        elif op == 'setlines':
+            tb.lines = list(arg)
+            model = list(arg)
+        elif op in ('trim', 'trim_end'):
+            tb.trim(end_only=op == 'trim_end')
+            model = ref_trim(model, op == 'trim_end')
+        elif op == 'str':
+            observe(i)
+        expect(tb.lines == model, f'step {i} ({op}): lines {tb.lines!r} != {model!r}',
+               'hist-lines')
+    observe('end')
+    if not hdr:
+        expect(TextBlock([tb]).lines == model, 'nesting after the history loses lines', 'hist-nest')
+
+
 def nontrivial_content(c):
     if depth(c) < 2:
         return False
@@ -317,3 +384,19 @@ def run(ctx):
         check_chunk, max(1, n // 2),
         nontrivial=lambda c: depth(c['content']) >= 1,
         labels=lambda c: ['chunk'] + (['chunk-empty-content'] if is_empty(c['content']) else []))
+
+    def hist_labels(c):
+        ops = [o for o, _ in c['ops']]
+        out = ['history']
+        seen_str = False
+        for o, a in c['ops']:
+            if o in ('str', 'add', 'nest'):
+                seen_str = True
+            elif seen_str and o in ('append', 'iadd', 'setlines', 'trim', 'trim_end'):
+                out.append('change-after-str')
+                if isinstance(a, dict) and '$tb' in a:
+                    out.append('direct-block-after-str')
+                break
+        return out + (['hist-header'] if c['header'] else [])
+    ctx.clause('history', history, check_history, max(1, n // 2),
+               nontrivial=lambda c: 'change-after-str' in hist_labels(c), labels=hist_labels)
